@@ -36,7 +36,7 @@ Data(d) == IF d = 0 THEN { Atom(x) : x \in Atoms } \cup { [t |-> "list", es |-> 
 Opts == { [top |-> tp, delim |-> dl, afd |-> af, nullable |-> nu, mapafd |-> ma] :
              tp \in {"value", "optional", "bare", "args", "decls", "baremap", "rows", "pre"}, dl \in BOOLEAN, af \in {"default", "yes", "no"}, nu \in BOOLEAN, ma \in BOOLEAN }
 OptsOK(o) == /\ (o.afd = "yes" => o.delim) /\ (o.nullable => o.delim)
-             /\ (o.top = "bare" => o.afd # "yes" /\ ~o.nullable)
+             /\ (o.top = "bare" => o.afd # "yes")      \* nullable items: "a," is the list [a, None] (no final delimiter without brackets)
              /\ (o.top = "baremap" => o.afd = "default" /\ ~o.nullable)
              /\ (o.top = "pre" => o.afd = "default" /\ ~o.nullable)
              /\ (o.top = "rows" => o.afd = "default" /\ ~o.nullable /\ ~o.mapafd)
@@ -49,7 +49,12 @@ RECURSIVE LastNone(_)
 LastNone(d) == IF d.t = "list" THEN (d.es # <<>> /\ d.es[Len(d.es)].t = "none") \/ \E i \in 1 .. Len(d.es) : LastNone(d.es[i])
                ELSE IF d.t = "map" THEN \E i \in 1 .. Len(d.kvs) : LastNone(d.kvs[i][2]) ELSE FALSE
 (* data that can be written under an option set *)
-Fits(d, o) == /\ (HasNone(d) => o.nullable) /\ ~LastNone(d)
+(* a last item that is empty is written only at the top of a bracket-less list of at least two items ("a," = [a, None]; *)
+(* one empty item alone is the empty text = the empty list); inside brackets "[a,]" is read as a final delimiter          *)
+LastNoneOK(d, o) == IF o.top = "bare" /\ o.nullable /\ d.t = "list" /\ Len(d.es) >= 2
+                      THEN \A i \in 1 .. Len(d.es) : ~LastNone(d.es[i])
+                      ELSE ~LastNone(d)
+Fits(d, o) == /\ (HasNone(d) => o.nullable) /\ LastNoneOK(d, o)
               /\ (d.t = "list" /\ d.es # <<>> => d.es[1].t # "none" \/ o.nullable)
 
 RECURSIVE Flat(_)
@@ -89,6 +94,7 @@ Choose == /\ phase = "opt" /\ phase' = "done"
                /\ Fits(d, opt) /\ ~(f /\ b)
                /\ (b => ~opt.nullable)       \* with nullable items "[a,]" is a list with an empty last item
                /\ (opt.top \in {"bare", "decls"} => d.t = "list")
+               /\ (opt.top = "bare" /\ opt.nullable => ~f)     \* there a trailing delimiter is an empty item, never a final delimiter
                /\ (opt.top = "baremap" => d.t = "map")
                /\ (opt.top = "rows" => /\ d.t = "list" /\ d.es # <<>> /\ d.es[Len(d.es)].t = "atom" /\ ~f /\ ~b
                                        /\ \A i \in 1 .. Len(d.es) : d.es[i].t = "atom" \/ d.es[i] = [t |-> "list", es |-> <<>>])
